@@ -1,6 +1,6 @@
 INIT Init
 NEXT Next
 ACTION_CONSTRAINT Emit
-INVARIANTS OneOpenRange RangesOrdered
+INVARIANTS OneOpenRange RangesOrdered FileValid
 PROPERTIES StepOK
 CHECK_DEADLOCK FALSE
